@@ -4,9 +4,13 @@ import sys, os, shutil, json, re, glob
 ID, mut, name, run, needs = sys.argv[1:6]
 dst = f"/verif/seeded/{ID}-{name}"
 os.makedirs(dst, exist_ok=True)
-shutil.copy(f"{mut}/patch.diff", dst)
-for f in glob.glob(f"{mut}/*_test.go") + glob.glob(f"{mut}/README.md"):
-    shutil.copy(f, dst)
+old = json.load(open(f"{dst}/meta.json")) if os.path.exists(f"{dst}/meta.json") else None
+if os.path.realpath(mut) != os.path.realpath(dst):
+    shutil.copy(f"{mut}/patch.diff", dst)
+    for f in glob.glob(f"{mut}/*_test.go") + glob.glob(f"{mut}/README.md"):
+        shutil.copy(f, dst)
+if old and not needs:
+    needs = old.get("what_it_needs_to_manifest", "")
 chk = open(f"{run}/check.txt").read()
 classes = re.findall(r"^violation-class (.*)$", chk, re.M)
 exitc = re.findall(r"exit=(\d+)", chk)
@@ -25,5 +29,7 @@ meta = {
  "violation_classes": classes[:12],
  "caught": bool(exitc and exitc[-1] == "1"),
 }
+if old and (not old.get("caught") or old.get("missed_before_strengthening")):
+    meta["missed_before_strengthening"] = True
 json.dump(meta, open(f"{dst}/meta.json", "w"), indent=1)
 print(dst, "caught" if meta["caught"] else "MISSED", classes[:3])
